@@ -1,7 +1,7 @@
 (* C14 — Errors stay in documented classes; 'not submitted' means no byte was sent.
    Property theorems only; the statements are those of the named lemmas (printed by Check),
    each for ALL client states and ALL environment scripts unless it says otherwise. *)
-From MQ Require Import Session Outbound OutboundRefine ConnectProofs ClassProofs ErrTree ErrTreeProofs ErrTreeTheorems.
+From MQ Require Import Session Outbound OutboundRefine ConnectProofs ClassProofs ErrTree ErrTreeProofs ErrTreeTheorems TermCheck.
 
 (* a result among IsDeny, ErrClosed, ErrDown, ErrMax, ErrCanceled leaves the world exactly as it was: no byte written *)
 Theorem c14_not_submitted_nothing_written : ltac:(let t := type of not_submitted_nothing_written in exact t).
@@ -105,3 +105,10 @@ Proof. exact c14_read_backoff_nil_iff_closed. Qed.
 Check c14_read_backoff_nil_iff_closed.
 Print Assumptions c14_read_backoff_nil_iff_closed.
 
+
+(* Close/Disconnect with a transport whose Close may fail, every script of the DISCONNECT write:
+   each outcome is nil, ErrClosed, ErrDown, ErrCanceled or ErrSubmit; the first three without a byte sent *)
+Theorem c14_disconnect_close_failure_classes : ltac:(let t := type of term_model_in_contract in exact t).
+Proof. exact term_model_in_contract. Qed.
+Check c14_disconnect_close_failure_classes.
+Print Assumptions c14_disconnect_close_failure_classes.
